@@ -177,7 +177,29 @@ class CFGBuilder(AstVisitor[BB | None]):
         return bb
 
     def visit_Assign(self, node: ast.Assign, bb: BB, jumps: Jumps) -> BB | None:
-        return self._build_node_value(node, bb)
+        node.value, bb = ExprBuilder.build(node.value, self.cfg, bb)
+        # Index expressions inside the targets are evaluated after the value
+        for target in node.targets:
+            bb = self._build_target(target, bb)
+        bb.statements.append(node)
+        return bb
+
+    def _build_target(self, target: ast.expr, bb: BB) -> BB:
+        """Builds the index expressions occurring in an assignment target.
+
+        Mutates the subscripts in the target to point to the built expressions and
+        returns the BB in which they are available.
+        """
+        match target:
+            case ast.Subscript():
+                bb = self._build_target(target.value, bb)
+                target.slice, bb = ExprBuilder.build(target.slice, self.cfg, bb)
+            case ast.Attribute() | ast.Starred():
+                bb = self._build_target(target.value, bb)
+            case ast.Tuple(elts=elts) | ast.List(elts=elts):
+                for elt in elts:
+                    bb = self._build_target(elt, bb)
+        return bb
 
     def visit_AugAssign(self, node: ast.AugAssign, bb: BB, jumps: Jumps) -> BB | None:
         # `xs[i] += v` is later desugared to `xs[i] = xs[i] + v`, which mentions the index
